@@ -1064,7 +1064,7 @@ impl Model {
                 let new = format!("r{}", self.name_seq);
                 r.sql = format!("ALTER TABLE {} RENAME COLUMN {} TO {}", tab.name, tab.cols[ci].name, new);
                 r.table = Some(tab.name.clone());
-                if tab.cols[ci].pk || tab.cols[ci].unique || tab.indexed_cols().contains(&ci) {
+                if tab.indexed_any(ci) {
                     r.tags.push("rename_indexed_column");
                 }
                 r.after[ti].cols[ci].name = new;
